@@ -16,6 +16,8 @@ type Jar struct {
 	WriteCalls int
 	Events     []authboss.ClientStateEvent // all events delivered, in order
 	FailWrite  bool
+	Name       string    // for traces
+	Trace      *[]string // optional shared order log ("WriteState:<name>")
 }
 
 // NewJar creates an empty jar.
@@ -92,6 +94,9 @@ func (j *Jar) ReadState(*http.Request) (authboss.ClientState, error) {
 // WriteState applies the events as client_state.go documents them.
 func (j *Jar) WriteState(w http.ResponseWriter, st authboss.ClientState, evs []authboss.ClientStateEvent) error {
 	j.WriteCalls++
+	if j.Trace != nil {
+		*j.Trace = append(*j.Trace, "WriteState:"+j.Name)
+	}
 	if j.FailWrite {
 		return ErrInjected
 	}
@@ -131,6 +136,7 @@ type Recorder struct {
 	Body        []byte
 	WroteHeader bool
 	Calls       []string // "WriteHeader", "Write" in order
+	Trace       *[]string
 }
 
 func NewRecorder() *Recorder { return &Recorder{Hdr: http.Header{}} }
@@ -139,6 +145,9 @@ func (r *Recorder) Header() http.Header { return r.Hdr }
 
 func (r *Recorder) WriteHeader(code int) {
 	r.Calls = append(r.Calls, "WriteHeader")
+	if r.Trace != nil {
+		*r.Trace = append(*r.Trace, "WriteHeader")
+	}
 	if r.WroteHeader {
 		return
 	}
@@ -148,6 +157,9 @@ func (r *Recorder) WriteHeader(code int) {
 
 func (r *Recorder) Write(b []byte) (int, error) {
 	r.Calls = append(r.Calls, "Write")
+	if r.Trace != nil {
+		*r.Trace = append(*r.Trace, "Write")
+	}
 	if !r.WroteHeader {
 		r.WroteHeader = true
 		r.Code = 200
